@@ -111,6 +111,11 @@ def check_match(case, ctx):
         r = sut(nu.match, a1, a2)
         require(isinstance(r, Raised) and isinstance(r.exc, ValueError),
                 "match with a repeated value in the first array must raise ValueError, got %r", r)
+        # declaring the (sorted) array presorted does not make the repeat acceptable
+        a1s = np.sort(a1)
+        r = sut(nu.match, a1s, a2, presorted=True)
+        require(isinstance(r, Raised) and isinstance(r.exc, ValueError),
+                "match(presorted=True) with a repeated value in the sorted first array must raise ValueError, got %r", r)
         return
     arg1, arg2 = a1, a2
     lay = case.get("layout", "plain")
